@@ -513,6 +513,31 @@ pub fn cells(tier: Tier) -> Vec<CellPlan> {
         c.oracles = Oracles { c10: true, c02: true, c01: true, ..Default::default() };
         v.push(plan(c, 1, 1.0));
     }
+    // A chain e1 <- e2 <- e3 <- e4 that has been through ticks is cut, re-joined and re-rooted:
+    // removing a relation whose two ends both keep other relations must still regroup.
+    // (48: a pair of entities fits into one message, two pairs do not)
+    for &max in &[26usize, 48, 1200] {
+        let mut c = cells::base(&format!("graph-chain-{max}"), "C10");
+        c.cfg.with_child = true;
+        c.cfg.sync_rel = true;
+        c.cfg.clients = vec![max];
+        c.init = vec![
+            Op::Spawn(0, cells::AB),
+            Op::Spawn(1, cells::AB),
+            Op::Spawn(2, cells::AB),
+            Op::Spawn(3, cells::AB),
+            Op::SetParent(1, 0),
+            Op::SetParent(2, 1),
+            Op::SetParent(3, 2),
+        ];
+        c.alphabet = vec![Op::Nop, Op::ClearParent(2), Op::ClearParent(1), Op::SetParent(2, 1), Op::SetParent(2, 0), Op::Mut(3, TA)];
+        c.rounds = if q { 2 } else { 3 };
+        c.tick_choice = true;
+        c.env = Env::perfect();
+        c.split_stage = true;
+        c.oracles = Oracles { c10: true, c02: true, ..Default::default() };
+        v.push(plan(c, 0, 1.0));
+    }
     // Two synchronized relationship types that may connect the same pair of entities.
     for &max in &[22usize, 1200] {
         let mut c = cells::base(&format!("graph-two-relations-{max}"), "C10");
